@@ -230,8 +230,10 @@ def settings_for(draw, algo: str, space, with_seed: bool = True):
     elif algo == "CustomDOE":
         n = draw(st.integers(1, 12))
         s["_custom"] = {
-            "form": draw(st.sampled_from(["array", "dict", "dicts", "dicts", "dicts", "file"])),
+            "form": draw(st.sampled_from(["array", "dict", "dict", "dicts", "dicts", "file"])),
             "t": [[draw(st.integers(0, 8)) for _ in range(d)] for _ in range(n)],
+            # insertion order of the keys of the mappings: a mapping is keyed by name, its order carries no meaning
+            "order": draw(st.one_of(st.just(list(range(len(space)))[::-1]), st.just(list(range(1, len(space))) + [0]), st.permutations(list(range(len(space)))))),
         }
     if with_seed and algo in SEED_KEY and draw(st.integers(0, 3)) > 0:
         s[SEED_KEY[algo]] = draw(SEEDS)
@@ -251,10 +253,21 @@ def cases(draw, routes):
 
 
 @st.composite
+def custom_cases(draw):
+    """CustomDOE only: every input form (2D array, mapping of 2D arrays, list of per-point mappings, file) on every route."""
+    space = draw(spaces())
+    return {
+        "algo": "CustomDOE", "space": space, "settings": draw(settings_for("CustomDOE", space)),
+        "route": draw(st.sampled_from(["lib", "top", "model", "exec", "exec_factory"])), "rng": draw(st.integers(0, 2**31 - 1)),
+    }
+
+
+@st.composite
 def seed_cases(draw):
     algo = draw(st.sampled_from(ALGOS))
     space = draw(spaces(max_dim=MAX_DIM.get(algo, 5)))
-    calls = draw(st.lists(st.one_of(st.none(), SEEDS), min_size=1, max_size=3))
+    # a call without seed after the first one is where the default seed sequence (1, 2, 3, ...) shows
+    calls = draw(st.one_of(st.just([None, None]), st.lists(st.one_of(st.none(), SEEDS), min_size=1, max_size=3), st.tuples(SEEDS, st.none()).map(list)))
     return {
         "algo": algo, "space": space, "settings": draw(settings_for(algo, space, with_seed=algo == "MorrisDOE")),
         "calls": calls, "route": draw(st.sampled_from(["lib", "exec"])), "rng": draw(st.integers(0, 2**31 - 1)),
@@ -314,20 +327,16 @@ def real_settings(p, scratch_files: list) -> dict:
         form = custom["form"]
         if form == "array":
             s["samples"] = pts
-        elif form == "dict":
-            s["samples"], start = {}, 0
+        elif form in ("dict", "dicts"):
+            starts, start = [], 0
             for v in p["space"]:
-                s["samples"][v["name"]] = pts[:, start : start + v["size"]]
+                starts.append(start)
                 start += v["size"]
-        elif form == "dicts":
-            rows = []
-            for row in pts:
-                start, item = 0, {}
-                for v in p["space"]:
-                    item[v["name"]] = row[start : start + v["size"]]
-                    start += v["size"]
-                rows.append(item)
-            s["samples"] = rows
+            order = custom.get("order") or list(range(len(p["space"])))
+            if form == "dict":
+                s["samples"] = {p["space"][i]["name"]: pts[:, starts[i] : starts[i] + p["space"][i]["size"]] for i in order}
+            else:
+                s["samples"] = [{p["space"][i]["name"]: row[starts[i] : starts[i] + p["space"][i]["size"]] for i in order} for row in pts]
         else:
             fd, path = tempfile.mkstemp(suffix=".csv", dir=os.environ.get("VERIF_SCRATCH"))
             os.close(fd)
@@ -578,6 +587,9 @@ def classify(p, ctx, oracle: str):
     if "_custom" in p["settings"]:
         names = [v["name"] for v in p["space"]]
         ctx.cls(f"custom:{p['settings']['_custom']['form']}" + ("" if names == sorted(names) else ":names_not_in_alphabetical_order"))
+        order = p["settings"]["_custom"].get("order") or []
+        if p["settings"]["_custom"]["form"] in ("dict", "dicts") and list(order) != sorted(order):
+            ctx.cls(f"custom:{p['settings']['_custom']['form']}:keys_not_in_design_space_order")
     off_unit = bool(np.any((lb != 0.0) | (ub != 1.0)))
     if off_unit and (d >= 2 or is_int.any()):
         ctx.nontriv((oracle, p["algo"], p["space"], p["settings"], p["route"]))
@@ -683,6 +695,18 @@ def case_execute(p, ctx):
         check_samples(p, ctx, stacked, "execute", "database", count=False)
         distinct = not is_int.all() and not np.any(lb == ub) and p["algo"] in EXACT_N and "scramble" not in p["settings"]
         check_count(p, ctx, len(xs), "execute", "database", upper_only=not distinct)
+        if p["algo"] == "CustomDOE":
+            # the functions are evaluated at the given points, in the given order (equal points are stored once)
+            pts = custom_points(p["space"], p["settings"]["_custom"]["t"])
+            firsts = []
+            for row in pts:
+                if not any(np.array_equal(row, f) for f in firsts):
+                    firsts.append(row)
+            tol = 8 * EPS * np.maximum(1.0, np.maximum(np.abs(lb), np.abs(ub)))
+            ctx.check(len(xs) <= len(firsts), "execute:custom", f"{len(xs)} database points for {len(firsts)} distinct given points")
+            if len(xs) == len(firsts):
+                ctx.check(all(bool(np.all(np.abs(x - f) <= tol)) for x, f in zip(xs, firsts)), "execute:custom",
+                          "the database points are not the given points in the given order", database=stacked[:3], given=np.array(firsts)[:3])
     # same samples as compute_doe with the same settings and seed
     seeded = p["algo"] not in SEED_KEY or SEED_KEY[p["algo"]] in p["settings"]
     if p["algo"] == "MorrisDOE":
@@ -731,10 +755,15 @@ def case_seed(p, ctx):
     ctx.sample({"oracle": "seed", "case": p})
 
 
-ORACLES = {"compute": case_compute, "execute": case_execute, "seed": case_seed}
+def case_custom(p, ctx):
+    (case_execute if p["route"].startswith("exec") else case_compute)(p, ctx)
+
+
+ORACLES = {"compute": case_compute, "execute": case_execute, "seed": case_seed, "custom": case_custom}
 
 
 def run(ctx):
     ctx.drive("compute", cases(["lib", "lib", "top", "model"]), case_compute, quick=1000, thorough=4000)
     ctx.drive("execute", cases(["exec", "exec", "exec_factory"]), case_execute, quick=450, thorough=2000)
     ctx.drive("seed", seed_cases(), case_seed, quick=350, thorough=1500)
+    ctx.drive("custom", custom_cases(), case_custom, quick=200, thorough=600)
